@@ -76,6 +76,7 @@ LABELARITH = [
 NEGARITH = [
     sym('liNeg', lambda l: L.li(10, ('rsub', 2051, ('label', l))), 'ref'),
     sym('liNeg9', lambda l: L.li(10, ('rsub', 2057, ('label', l))), 'ref'),
+    sym('liLow', lambda l: L.li(10, ('add', ('label', l), -2052)), 'ref'),        # increasing in the label, just above the negative 12-bit edge
     sym('addiNeg', lambda l: I('addi', rd=8, rs1=8, imm=('rsub', 2051, ('label', l))), 'ref'),
     sym('addiNeg9', lambda l: I('addi', rd=5, rs1=6, imm=('rsub', 2057, ('label', l))), 'ref'),
     sym('lwNeg', lambda l: I('lw', rd=8, rs1=8, imm=('rsub', 130, ('label', l))), 'ref'),
